@@ -282,6 +282,10 @@ func parseErrClass(err error) string {
 		return "err:badpolicy"
 	case strings.Contains(s, "max_wrapping_ttl cannot be less"):
 		return "err:ttl"
+	case strings.Contains(s, "_wrapping_ttl cannot be negative"):
+		return "err:negttl"
+	case strings.Contains(s, "more than once (parameter names are case-insensitive)"):
+		return "err:dupparam"
 	}
 	return "err:other"
 }
@@ -932,18 +936,27 @@ func fixedCases(t *testing.T, out *vh.Out, rng *vh.Rand) {
 		}
 		e.caps(0, p)
 	}
-	// witness: attachment order matters when a wrapping-TTL bound is negative
+	// witness of F19 (repaired: a negative wrapping-TTL bound is a parse error now; the case stays armed — should such
+	// a stanza be accepted again, the order predicate in props/C03.py sees the two attachment orders disagree)
 	e = newEnv(t, out, rng)
 	ra := simpleRule("x", "read")
 	ra.max = ip(-1)
 	rb := simpleRule("x", "read")
 	rb.max = ip(5)
-	e.addPolicy("a", []srcRule{ra})
-	e.addPolicy("b", []srcRule{rb})
-	e.attach(0, false, []int{0, 1})
-	e.allow(0, false, request{path: "x", op: "read"}, "")
-	e.attach(1, false, []int{1, 0})
-	e.allow(1, false, request{path: "x", op: "read"}, "")
+	pa := e.addPolicy("a", []srcRule{ra})
+	pb := e.addPolicy("b", []srcRule{rb})
+	if pa.ok && pb.ok {
+		e.attach(0, false, []int{0, 1})
+		e.allow(0, false, request{path: "x", op: "read"}, "")
+		e.attach(1, false, []int{1, 0})
+		e.allow(1, false, request{path: "x", op: "read"}, "")
+	}
+	rmin := simpleRule("x", "read")
+	rmin.min = ip(-2)
+	e.addPolicy("c", []srcRule{rmin})
+	rdeny := simpleRule("x", "deny")
+	rdeny.max = ip(-1) // a deny stanza skips the fine-grained fields altogether
+	e.addPolicy("d", []srcRule{rdeny})
 	// witness: NewACL appends to slices owned by the shared *Policy objects
 	e = newEnv(t, out, rng)
 	mk := func(vals []val, req []string) srcRule {
@@ -962,7 +975,8 @@ func fixedCases(t *testing.T, out *vh.Out, rng *vh.Rand) {
 	}
 	e.sharedProbe(0, []int{1, 0}, 1, []int{2, 0}, reqs)
 	e.sharedProbe(2, []int{0, 1}, 3, []int{0, 2}, reqs)
-	// witness: two parameter names differing only in case make the parse depend on Go's map iteration order
+	// witness of F21 (repaired: two parameter names differing only in case are a parse error now; stays armed: 300
+	// parses of the same text must give the same result)
 	e = newEnv(t, out, rng)
 	rc := simpleRule("x", "update")
 	rc.allowed = pmap{present: true, keys: []string{"k", "K"}, vals: [][]val{{sv("a")}, {sv("b")}}}
